@@ -508,8 +508,8 @@ def adapter_spec_string(rng, allow_linked=True, anchored_ok=True, named=True, id
         return "-g", name + seq + ";rightmost" + params.replace(";noindels", ""), [seq]
     seq2 = U.rand_seq(rng, rng.choice([4, 5, 6, 8]), "ACGT")
     flag = rng.choice(["-a", "-g"])
-    a1 = rng.choice(["", "^"]) + seq + rng.choice(["", ";optional", ";required", ";e=0.2"])
-    anch2 = rng.choice(["", "$"])
+    a1 = rng.choice(["", "^", "", "^", "X"]) + seq + rng.choice(["", ";optional", ";required", ";e=0.2"])
+    anch2 = rng.choice(["", "$", "", "$", "X"])
     a2 = seq2 + anch2 + rng.choice(["", ";optional", ";required"] + ([";o=3"] if not anch2 else []))
     return flag, name + a1 + "..." + a2, [seq, seq2]
 
